@@ -15,6 +15,16 @@ var LibLoader = packagelib.Loader{
 	Load: Load,
 }
 
+func init() {
+	// These functions are shared by all runtimes: their compliance is declared
+	// once, not each time a runtime loads the library.
+	rt.SolemnlyDeclareCompliance(
+		rt.ComplyCpuSafe|rt.ComplyMemSafe|rt.ComplyTimeSafe|rt.ComplyIoSafe,
+		ipairsIterator,
+		nextGoFunc,
+	)
+}
+
 func Load(r *rt.Runtime) (rt.Value, func()) {
 	env := r.GlobalEnv()
 	r.SetEnv(env, "_G", rt.TableValue(env))
@@ -24,8 +34,6 @@ func Load(r *rt.Runtime) (rt.Value, func()) {
 	rt.SolemnlyDeclareCompliance(
 		rt.ComplyCpuSafe|rt.ComplyMemSafe|rt.ComplyTimeSafe|rt.ComplyIoSafe,
 
-		ipairsIterator,
-		nextGoFunc,
 		r.SetEnvGoFunc(env, "assert", assert, 1, true),
 		r.SetEnvGoFunc(env, "error", errorF, 2, false),
 		r.SetEnvGoFunc(env, "getmetatable", getmetatable, 1, false),
